@@ -503,8 +503,10 @@ def mismatch_one(c: dict, root: str, saved: dict) -> list[tuple[str, str]]:
         saved[k] = (path, stored_rows(leaf_rows(pa)))
     path, file_rows = saved[k]
     tag = f"{cname}: file saved from act={a['act']} obs={a['obs']} kw={a['kw']} (key {c['key']}, {len(file_rows)} stored leaves) loaded with act={b['act']} obs={b['obs']} kw={b['kw']}"
+    load_path = path if c.get("load_spelling", "eqx") == "eqx" else path[: -len(".eqx")]  # with / without the suffix
+    tag += f" [loaded via {os.path.basename(load_path)!r}]"
     try:
-        got = load(b, path, c["load_key"])
+        got = load(b, load_path, c["load_key"])
     except Exception:
         return []  # loud failure: what the property demands
     rows = stored_rows(leaf_rows(got))
@@ -884,6 +886,8 @@ def _explore(ctx: Ctx):
     else:
         for lst in G.values():
             add_pairs(lst)
+    # every pair is loaded through both spellings of the saved file's path (with and without the .eqx suffix)
+    pairs = [dict(c, load_spelling=sp) for c in pairs for sp in ("eqx", "plain")]
     pairs.sort(key=lambda c: json.dumps([c["a"], c["key"]], sort_keys=True))  # one save per (A, key) and block
     ctx.run("mismatch", pairs)
     ctx.traces += len(pairs)
